@@ -24,7 +24,8 @@ RULE = ("exhaustive: every old key column over 3 keys with 0-3 versions per key 
 ASSUMPTIONS = ["np.argsort(kind='stable') is a stable sort; numpy fancy indexing / Field.apply_index permute rows (C09)",
                "IndexedStringField stores (offsets, bytes) with offsets[0]=0 and non-decreasing offsets (C01)",
                "numpy/numba compare int64 and fixed-length byte-string keys as the total order the model uses on Int",
-               "the snapshot's keys are unique (the property's quantifier); payload floats are integer-valued (no NaN)",
+               "the snapshot's keys are unique (the property's quantifier); float payloads are integer-valued or NaN, and a NaN "
+               "cell is shown to the model as one more value equal to itself (the behaviour after fix NC17a)",
                "hand-written Lean model validated by this differential run, not verified against the Python text"]
 TRUSTED = ["Lean 4.33 kernel", "axioms: propext, Classical.choice, Quot.sound only (audited per theorem)",
            "checks/harness/c17.py generators and comparison", "Lean model Exetera/Model/Journal.lean mirrors operations.py / journal.py by hand",
@@ -44,6 +45,7 @@ EXPLANATION = ""
 
 STRS = ["", "a", "b", "ab", "ba", "abc", "é", "aé", "zz z"]
 NUM_DTYPES = ["int32", "int64", "int8", "float64"]
+NAN = 1000003        # how a NaN cell (JSON null in a float64 column) is shown to the model: one more value, equal to itself
 
 
 # ------------------------------------------------------------------------------------------------------------------
@@ -166,9 +168,11 @@ def rand_cols(rng, old_ids, new_ids, old_order, dts=NUM_DTYPES):
     cols = []
     for kind in kinds:
         o = [rand_payload(rng, kind) for _ in old_ids]
-        cols.append({"kind": kind, "o": o, "n": [None] * len(new_ids)})
+        cols.append({"kind": kind, "o": o, "n": [0] * len(new_ids)})
         if kind == "num":
             cols[-1]["dtype"] = rng.choice(dts)
+            if cols[-1]["dtype"] == "float64":
+                cols[-1]["o"] = [None if rng.random() < 0.3 else v for v in o]      # NaN cells
     for j, k in enumerate(new_ids):
         same = k in latest and rng.random() < 0.5
         diffcol = rng.randrange(ncols)
@@ -179,8 +183,10 @@ def rand_cols(rng, old_ids, new_ids, old_order, dts=NUM_DTYPES):
                 c["n"][j] = c["o"][latest[k]]         # differences confined to one column
             else:
                 v = rand_payload(rng, c["kind"])
+                if c.get("dtype") == "float64" and rng.random() < 0.3:
+                    v = None
                 if k in latest and v == c["o"][latest[k]]:
-                    v = (v + [120]) if c["kind"] == "str" else v + 1
+                    v = (v + [120]) if c["kind"] == "str" else (5 if v is None else v + 1)
                 c["n"][j] = v
     return cols
 
@@ -217,9 +223,10 @@ def rand_kernel_case(rng, t):
         rng.shuffle(old)                               # unsorted old: outside the precondition, model must still agree
     elif r < 0.3 and new:
         new.insert(rng.randrange(len(new) + 1), rng.choice(new))   # duplicate / unsorted new
-    cols = rand_cols(rng, old, new, list(range(len(old))))
+    cols = rand_cols(rng, old, new, list(range(len(old))), NUM_DTYPES)
     for c in cols:
-        c.pop("dtype", None)
+        if c.get("dtype") != "float64":
+            c.pop("dtype", None)
     return {"op": "journal_kernels", "old": old, "new": new, "cols": cols, "_n": t, "_rand": True}
 
 
@@ -259,7 +266,7 @@ def _write_table(e, df, ids, vf, cols, side, kdtype, drop=()):
         name = "c%d" % ci
         if c["kind"] == "num":
             dt = c.get("dtype", "int32")
-            s.create_numeric(df, name, dt).data.write(np.array(c[side], dtype=dt))
+            s.create_numeric(df, name, dt).data.write(np.array([np.nan if x is None else x for x in c[side]], dtype=dt))
         else:
             s.create_indexed_string(df, name).data.write([bytes(b).decode("utf-8") for b in c[side]])
 
@@ -286,7 +293,7 @@ def impl_table(case):
             f = r["c%d" % ci]
             if c["kind"] == "num":
                 d = f.data[:]
-                out.append({"kind": "num", "d": [int(x) for x in d.tolist()], "len": len(f.data)})
+                out.append({"kind": "num", "d": [None if x != x else int(x) for x in d.tolist()], "len": len(f.data)})
             else:
                 out.append({"kind": "str", "i": [int(x) for x in f.indices[:].tolist()],
                             "v": [int(x) for x in f.values[:].tolist()], "len": len(f.data)})
@@ -314,7 +321,8 @@ def impl_kernels(case):
     arrs = []
     for c in case["cols"]:
         if c["kind"] == "num":
-            a = (np.array(c["o"], dtype="int64"), np.array(c["n"], dtype="int64"))
+            dt = c.get("dtype", "int64")
+            a = tuple(np.array([np.nan if x is None else x for x in c[side]], dtype=dt) for side in ("o", "n"))
             ops.compare_rows_for_journalling(om, nm, a[0], a[1], tk)
         else:
             oi, ov = _encode(np, c["o"])
@@ -326,9 +334,9 @@ def impl_kernels(case):
     out = []
     for c, a in zip(case["cols"], arrs):
         if c["kind"] == "num":
-            dest = np.zeros(merged, dtype="int64")
+            dest = np.zeros(merged, dtype=a[0].dtype)
             ops.merge_journalled_entries(om, nm, tk, a[0], a[1], dest)
-            out.append({"kind": "num", "d": dest.tolist()})
+            out.append({"kind": "num", "d": [None if x != x else int(x) for x in dest.tolist()]})
         else:
             di = np.zeros(merged + 1, dtype="int64")
             cnt = ops.merge_indexed_journalled_entries_count(om, nm, tk, a[0], a[2])
@@ -344,6 +352,8 @@ def impl(case):
 
 def to_model(case):
     c = {k: v for k, v in case.items() if not k.startswith("_")}
+    c["cols"] = [dict(col, o=[NAN if x is None else x for x in col["o"]], n=[NAN if x is None else x for x in col["n"]])
+                 if col["kind"] == "num" else col for col in case["cols"]]
     return c
 
 
@@ -428,6 +438,8 @@ def compare(case, io, mo, mode):
     if len(io["cols"]) != len(m["cols"]):
         return f"impl has {len(io['cols'])} columns, model {len(m['cols'])}"
     for ci, (a, b) in enumerate(zip(io["cols"], m["cols"])):
+        if "d" in a:
+            a = dict(a, d=[NAN if x is None else x for x in a["d"]])
         for key in ("kind", "d", "i", "v"):
             if a.get(key) != b.get(key):
                 return f"column {ci} {key}: impl {a.get(key)} model {b.get(key)}"
@@ -435,6 +447,18 @@ def compare(case, io, mo, mode):
 
 
 def match_finding(case, io, mode):
+    """NC17a: a float field that is NaN both in the latest old version and in the snapshot row of the same key"""
+    if "err" in io or not in_scope(case):
+        return None
+    if case["op"] == "journal_table":
+        okeys, ovf, nkeys = case["old_ids"], case["old_vf"], case["new_ids"]
+    else:
+        okeys, nkeys = case["old"], case["new"]
+        ovf = [0] * len(okeys)
+    for j, k in enumerate(nkeys):
+        hist = sorted((r for r in range(len(okeys)) if okeys[r] == k), key=lambda r: (ovf[r], r))
+        if hist and any(c["kind"] == "num" and c["o"][hist[-1]] is None and c["n"][j] is None for c in case["cols"]):
+            return "NC17a"
     return None
 
 
